@@ -704,9 +704,27 @@ def _param_machine() -> Any:
                          "target": "six", "actions": tr("R2:six")},
                     ]}},
                     "big": {}, "six": {}}},
+                # params that are FALSY but not None (0, [], a computed 0) must reach the predicate like any other value
+                "R3": {"initial": "s", "states": {
+                    "s": {"on": {"E": [
+                        {"guard": {"type": "eqp", "params": 0}, "target": "zero", "actions": tr("R3:zero")},
+                        {"guard": {"type": "geq", "params": lambda a: a["context"]["v"] - 10}, "target": "g", "actions": tr("R3:geq")},
+                        {"guard": {"type": "empty", "params": []}, "target": "e", "actions": tr("R3:empty")},
+                    ]}},
+                    "zero": {}, "g": {}, "e": {}}},
             },
         }
-        logic = make_logic(guards={"atLeast": at_least})
+
+        def eqp(ctx: Any, event: Any, params: Any) -> bool:
+            return ctx["v"] == params
+
+        def geq(ctx: Any, event: Any, params: Any) -> bool:
+            return ctx["v"] >= params
+
+        def empty(ctx: Any, event: Any, params: Any) -> bool:
+            return len(params) == 0
+
+        logic = make_logic(guards={"atLeast": at_least, "eqp": eqp, "geq": geq, "empty": empty})
         m = create_machine(cfg, logic=logic)
         env.pin_hashes(m)
         _M2["param"] = m
@@ -747,13 +765,14 @@ def param_selection(eng: int, v: int) -> bool:
         want.append("R2:big")
     elif 5 <= v < 7:
         want.append("R2:six")
+    want.append("R3:zero" if v == 0 else "R3:geq")
     if fired != sorted(want):
         _note(f"v={v}: fired {fired}, parameterised-guard reference {sorted(want)}")
     return verdict(fired == sorted(want))
 
 
 PROBES = {
-    "param_selection": [{"v": 6}, {"v": 50}, {"v": 120}, {"eng": 1, "v": 50}, {"eng": 1, "v": 6}],
+    "param_selection": [{"v": 6}, {"v": 50}, {"v": 120}, {"eng": 1, "v": 50}, {"eng": 1, "v": 6}, {"v": 0}, {"v": 10}, {"eng": 1, "v": 10}],
     "state_in": [{"name": "a"}, {"name": "b"}, {"name": "2"}, {"name": "#m"}],
 }
 
